@@ -28,6 +28,13 @@ type reasonCase struct {
 	Old    string   `json:"old"`
 	New    string   `json:"new"`
 	Expect []string `json:"expect"` // functionEnvKeys that must be named, and no others
+	// the edit happens together with another ground for a rebuild; target.go gives the parts of the environment
+	// precedence over all of them (`case !upToDate:` comes first in the switch of runTarget.Evaluate)
+	Old2   string `json:"old2,omitempty"`   // a second edit in the same step (an input of a dependency)
+	New2   string `json:"new2,omitempty"`
+	Always bool   `json:"always,omitempty"` // the second build runs with RunOptions{Always: true}
+	Marker bool   `json:"marker,omitempty"` // the record carries the in-progress marker of an interrupted run (rerun: true)
+	Text   string `json:"text,omitempty"`   // controls without an environment edit: the exact reason expected
 }
 
 const reasonTarget = "@target(default=True)\n"
@@ -42,39 +49,65 @@ func reasonCases(r *rng) []reasonCase {
 	if attr[0] == "keys" {
 		recv = "{}"
 	}
-	return []reasonCase{
+	base := []reasonCase{
 		{"constant in the target's body", fmt.Sprintf(reasonTarget+"def t():\n    v = %d\n    return None\n", k1),
-			fmt.Sprintf("    v = %d\n", k1), fmt.Sprintf("    v = %d\n", k1+1), []string{"constant values"}},
+			fmt.Sprintf("    v = %d\n", k1), fmt.Sprintf("    v = %d\n", k1+1), []string{"constant values"}, "", "", false, false, ""},
 		{"string constant in the target's body", reasonTarget + "def t():\n    v = \"abc\"\n    return None\n",
-			"    v = \"abc\"\n", "    v = \"abd\"\n", []string{"constant values"}},
+			"    v = \"abc\"\n", "    v = \"abd\"\n", []string{"constant values"}, "", "", false, false, ""},
 		{"predeclared value the target refers to", fmt.Sprintf(reasonTarget+"def t():\n    v = [%s]\n    return None\n", pre[0]),
-			fmt.Sprintf("    v = [%s]\n", pre[0]), fmt.Sprintf("    v = [%s]\n", pre[1]), []string{"names", "predeclared values"}},
+			fmt.Sprintf("    v = [%s]\n", pre[0]), fmt.Sprintf("    v = [%s]\n", pre[1]), []string{"names", "predeclared values"}, "", "", false, false, ""},
 		{"universal builtin the target refers to", fmt.Sprintf(reasonTarget+"def t():\n    v = [%s]\n    return None\n", uni[0]),
-			fmt.Sprintf("    v = [%s]\n", uni[0]), fmt.Sprintf("    v = [%s]\n", uni[1]), []string{"names", "universal values"}},
+			fmt.Sprintf("    v = [%s]\n", uni[0]), fmt.Sprintf("    v = [%s]\n", uni[1]), []string{"names", "universal values"}, "", "", false, false, ""},
 		{"attribute name the target uses", fmt.Sprintf(reasonTarget+"def t():\n    x = %s\n    v = x.%s\n    return None\n", recv, attr[0]),
-			fmt.Sprintf("    v = x.%s\n", attr[0]), fmt.Sprintf("    v = x.%s\n", attr[1]), []string{"names"}},
+			fmt.Sprintf("    v = x.%s\n", attr[0]), fmt.Sprintf("    v = x.%s\n", attr[1]), []string{"names"}, "", "", false, false, ""},
 		{"global the target refers to", fmt.Sprintf("G = %d\n"+reasonTarget+"def t():\n    v = G\n    return None\n", k2),
-			fmt.Sprintf("G = %d\n", k2), fmt.Sprintf("G = %d\n", k2+1), []string{"global values"}},
+			fmt.Sprintf("G = %d\n", k2), fmt.Sprintf("G = %d\n", k2+1), []string{"global values"}, "", "", false, false, ""},
 		{"body of a function the target calls", fmt.Sprintf("def h():\n    return %d\n"+reasonTarget+"def t():\n    v = h()\n    return None\n", k3),
-			fmt.Sprintf("    return %d\n", k3), fmt.Sprintf("    return %d\n", k3+1), []string{"global values"}},
+			fmt.Sprintf("    return %d\n", k3), fmt.Sprintf("    return %d\n", k3+1), []string{"global values"}, "", "", false, false, ""},
 		{"default parameter value of the target", fmt.Sprintf(reasonTarget+"def t(self, y=%d):\n    v = y\n    return None\n", k4),
-			fmt.Sprintf("def t(self, y=%d):\n", k4), fmt.Sprintf("def t(self, y=%d):\n", k4+1), []string{"default parameter values"}},
+			fmt.Sprintf("def t(self, y=%d):\n", k4), fmt.Sprintf("def t(self, y=%d):\n", k4+1), []string{"default parameter values"}, "", "", false, false, ""},
 		{"free variable of the target", fmt.Sprintf("def mk(k):\n    def t():\n        v = k\n        return None\n    return t\ntarget(name=\"t\", function=mk(%d), default=True)\n", k5),
-			fmt.Sprintf("function=mk(%d)", k5), fmt.Sprintf("function=mk(%d)", k5+1), []string{"free variables"}},
+			fmt.Sprintf("function=mk(%d)", k5), fmt.Sprintf("function=mk(%d)", k5+1), []string{"free variables"}, "", "", false, false, ""},
 		{"signature of the target", reasonTarget + "def t(self):\n    v = 1\n    return None\n",
-			"def t(self):\n", "def t(this):\n", []string{"parameters"}},
+			"def t(self):\n", "def t(this):\n", []string{"parameters"}, "", "", false, false, ""},
 		{"the target gains *args", reasonTarget + "def t(self):\n    v = 1\n    return None\n",
-			"def t(self):\n", "def t(self, *rest):\n", []string{"parameters", "code"}},
+			"def t(self):\n", "def t(self, *rest):\n", []string{"parameters", "code"}, "", "", false, false, ""},
 		{"constant of a function nested in the target", fmt.Sprintf(reasonTarget+"def t():\n    def inner():\n        return %d\n    v = inner()\n    return None\n", k6),
-			fmt.Sprintf("        return %d\n", k6), fmt.Sprintf("        return %d\n", k6+1), []string{"function values"}},
+			fmt.Sprintf("        return %d\n", k6), fmt.Sprintf("        return %d\n", k6+1), []string{"function values"}, "", "", false, false, ""},
 		{"operator in the target's body", fmt.Sprintf(reasonTarget+"def t():\n    a = %d\n    v = a + a\n    return None\n", k7),
-			"    v = a + a\n", "    v = a - a\n", []string{"code"}},
+			"    v = a + a\n", "    v = a - a\n", []string{"code"}, "", "", false, false, ""},
 		{"predeclared value and universal builtin together", fmt.Sprintf(reasonTarget+"def t():\n    v = [%s, %s]\n    return None\n", pre[0], uni[0]),
-			fmt.Sprintf("    v = [%s, %s]\n", pre[0], uni[0]), fmt.Sprintf("    v = [%s, %s]\n", pre[1], uni[1]), []string{"names", "predeclared values", "universal values"}},
+			fmt.Sprintf("    v = [%s, %s]\n", pre[0], uni[0]), fmt.Sprintf("    v = [%s, %s]\n", pre[1], uni[1]), []string{"names", "predeclared values", "universal values"}, "", "", false, false, ""},
 		{"constant and global together", fmt.Sprintf("G = %d\n"+reasonTarget+"def t():\n    v = [G, %d]\n    return None\n", k2, k1),
 			fmt.Sprintf("G = %d\n"+reasonTarget+"def t():\n    v = [G, %d]\n", k2, k1), fmt.Sprintf("G = %d\n"+reasonTarget+"def t():\n    v = [G, %d]\n", k2+1, k1+1),
-			[]string{"constant values", "global values"}},
+			[]string{"constant values", "global values"}, "", "", false, false, ""},
 	}
+	// the same kinds of edit TOGETHER WITH another ground for a rebuild: the reason still names the parts that differ
+	dep := func(tbody string) string {
+		return fmt.Sprintf("@target()\ndef d():\n    w = %d\n    return None\n@target(default=True, deps=[d])\n%s", k1+5, tbody)
+	}
+	tConst := fmt.Sprintf("def t():\n    v = %d\n    return None\n", k1)
+	tGlobal := "def t():\n    v = G\n    return None\n"
+	combined := []reasonCase{
+		{Name: "constant edit, rebuilt with Always", Build: reasonTarget + tConst, Old: fmt.Sprintf("    v = %d\n", k1), New: fmt.Sprintf("    v = %d\n", k1+1),
+			Expect: []string{"constant values"}, Always: true},
+		{Name: "global edit, rebuilt with Always", Build: fmt.Sprintf("G = %d\n", k2) + reasonTarget + tGlobal, Old: fmt.Sprintf("G = %d\n", k2), New: fmt.Sprintf("G = %d\n", k2+1),
+			Expect: []string{"global values"}, Always: true},
+		{Name: "no edit, rebuilt with Always", Build: reasonTarget + tConst, Always: true, Text: "always"},
+		{Name: "constant edit together with an edit of a dependency", Build: dep(tConst), Old: fmt.Sprintf("    v = %d\n", k1), New: fmt.Sprintf("    v = %d\n", k1+1),
+			Old2: fmt.Sprintf("    w = %d\n", k1+5), New2: fmt.Sprintf("    w = %d\n", k1+6), Expect: []string{"constant values"}},
+		{Name: "predeclared swap together with an edit of a dependency", Build: dep(fmt.Sprintf("def t():\n    v = [%s]\n    return None\n", pre[0])),
+			Old: fmt.Sprintf("    v = [%s]\n", pre[0]), New: fmt.Sprintf("    v = [%s]\n", pre[1]),
+			Old2: fmt.Sprintf("    w = %d\n", k1+5), New2: fmt.Sprintf("    w = %d\n", k1+6), Expect: []string{"names", "predeclared values"}},
+		{Name: "only a dependency is edited", Build: dep(tConst), Old: fmt.Sprintf("    w = %d\n", k1+5), New: fmt.Sprintf("    w = %d\n", k1+6),
+			Text: "out-of-date dependencies: //:d"},
+		{Name: "constant edit after an interrupted run", Build: reasonTarget + tConst, Old: fmt.Sprintf("    v = %d\n", k1), New: fmt.Sprintf("    v = %d\n", k1+1),
+			Expect: []string{"constant values"}, Marker: true},
+		{Name: "signature edit after an interrupted run, rebuilt with Always", Build: reasonTarget + "def t(self):\n    v = 1\n    return None\n",
+			Old: "def t(self):\n", New: "def t(this):\n", Expect: []string{"parameters"}, Marker: true, Always: true},
+		{Name: "no edit after an interrupted run", Build: reasonTarget + tConst, Marker: true, Text: "failed during last run"},
+	}
+	return append(base, combined...)
 }
 
 var reasonKeys = []string{"names", "constant values", "predeclared values", "universal values", "function values", "global values",
@@ -132,15 +165,51 @@ func reasonMode(seed uint64, tier, scratch string) {
 			os.RemoveAll(dir)
 			defer os.RemoveAll(dir)
 			files := map[string]string{"dawn.toml": "name = \"p\"\n", "BUILD.dawn": cs.Build}
-			if strings.Count(cs.Build, cs.Old) != 1 {
+			if (cs.Old != "" && strings.Count(cs.Build, cs.Old) != 1) || (cs.Old2 != "" && strings.Count(cs.Build, cs.Old2) != 1) {
 				panic("reason case " + cs.Name + ": edit does not apply exactly once")
 			}
 			writeFiles(dir, files)
 			count("reason_cases", 1)
 			b0 := runChild(dir, "build", "fwd", false, false, nil, timeout)
-			os.WriteFile(filepath.Join(dir, "BUILD.dawn"), []byte(strings.Replace(cs.Build, cs.Old, cs.New, 1)), 0644)
-			b1 := runChild(dir, "build", "fwd", false, false, nil, timeout)
+			edited := cs.Build
+			if cs.Old != "" {
+				edited = strings.Replace(edited, cs.Old, cs.New, 1)
+			}
+			if cs.Old2 != "" {
+				edited = strings.Replace(edited, cs.Old2, cs.New2, 1)
+			}
+			os.WriteFile(filepath.Join(dir, "BUILD.dawn"), []byte(edited), 0644)
+			if cs.Marker {
+				// what a run leaves that was interrupted after `inProgress.Rerun = true` was saved and before the result was:
+				// the record of the last successful run with the marker set
+				rec := filepath.Join(dir, ".dawn", "build", "targets", "%2Ft")
+				if raw, err := os.ReadFile(rec); err == nil {
+					var m map[string]any
+					if json.Unmarshal(raw, &m) == nil {
+						m["rerun"] = true
+						nb, _ := json.Marshal(m)
+						os.WriteFile(rec, nb, 0644)
+					}
+				}
+			}
+			mode2 := "build"
+			if cs.Always {
+				mode2 = "build-always"
+			}
+			b1 := runChild(dir, mode2, "fwd", false, false, nil, timeout)
 			count("child_runs", 2)
+			if b0.status == "ok" && b0.loadErr == "" && b1.status != "ok" && b1.variant != "" {
+				// the second build died after loading: no reason at all
+				b, _ := json.Marshal(map[string]any{"kind": "wrong-reason", "feature": cs.Name, "key": "wrong-reason:" + cs.Name, "target": "//:t",
+					"detail": fmt.Sprintf("the build after the edit (%s) dies instead of reporting a reason: %s", cs.Name, b1.detail),
+					"input": map[string]any{"stream": "env.reason", "case": cs}})
+				outMu.Lock()
+				stats["violations"]++
+				fmt.Fprintf(out, "V\t%s\n", b)
+				outMu.Unlock()
+				hist("reason_outcome", "crash")
+				return
+			}
 			if b0.status != "ok" || b1.status != "ok" || b0.loadErr != "" || b1.loadErr != "" {
 				count("invalid_programs", 1)
 				fmt.Fprintf(os.Stderr, "invalid reason case %q: %s %s %s %s\n", cs.Name, b0.status, b0.loadErr, b1.status, b1.loadErr)
@@ -157,6 +226,10 @@ func reasonMode(seed uint64, tier, scratch string) {
 			detail := ""
 			if !found {
 				detail = "the target was not re-executed after the edit"
+			} else if cs.Text != "" {
+				if reason != cs.Text {
+					detail = fmt.Sprintf("reason %q; with no difference in the environment (%s) the reason is %q", reason, cs.Name, cs.Text)
+				}
 			} else if got, ok := namedParts(reason); !ok {
 				detail = fmt.Sprintf("reason %q does not name parts of the environment; the edit changes: %s", reason, strings.Join(want, ", "))
 			} else if strings.Join(got, "|") != strings.Join(want, "|") {
